@@ -66,6 +66,19 @@ def run(ctx):
         for inp, r in zip(b["inputs"], b["rows"]):
             ref[inp] = r
     allb = []
+
+    def confirmed(inp, t, differs):
+        """a difference between the run at threshold t and the run at 0 counts only if it is reproducible: the input is run
+        again alone, twice at 0 and once at t; RDKit's MCS search works under wall-clock budgets, so under load two runs of the
+        same input can differ whatever the threshold"""
+        a = pipe.run_batch([inp], 0)["rows"]; b = pipe.run_batch([inp], 0)["rows"]; c = pipe.run_batch([inp], t)["rows"]
+        if a != b or len(a) != 1 or len(c) != 1:
+            ctx.timing_unstable += 1
+            return False
+        if differs(c[0], a[0]):
+            return True
+        ctx.timing_unstable += 1
+        return False
     for t, bs in sorted(by_t.items()):
         for b in bs:
             allb.append(b)
@@ -87,18 +100,18 @@ def run(ctx):
                     if c is None or not (0.0 <= c <= 1.0):
                         ctx.fail("confidence-out-of-range", case, {"confidence": c})
                         continue
-                    if c != r0["confidence"]:
+                    if c != r0["confidence"] and confirmed(inp, t, lambda x, y: x["confidence"] != y["confidence"]):
                         ctx.fail("confidence-depends-on-threshold", case, {"at_t": c, "at_0": r0["confidence"]})
                     if r["solved"] != (c >= t):
                         ctx.fail("threshold-not-exact", case, {"confidence": c, "solved": r["solved"]})
                     if not r["solved"] and "{:.2%}".format(t) not in (r["issue"] or ""):
                         ctx.fail("issue-does-not-name-threshold", case, {"issue": r["issue"]})
-                    if r["reaction"] != r0["reaction"] and r["solved"]:
+                    if r["reaction"] != r0["reaction"] and r["solved"] and confirmed(inp, t, lambda x, y: x["solved"] and x["reaction"] != y["reaction"]):
                         ctx.fail("result-depends-on-threshold", case, {"at_t": r["reaction"], "at_0": r0["reaction"]})
                 else:
-                    if r != r0:
+                    if r != r0 and confirmed(inp, t, lambda x, y: x["solved_by"] != "mcs-based" and x != y):
                         ctx.fail("other-rows-depend-on-threshold", case, {"at_t": r, "at_0": r0})
-                if r["solved"] and not r0["solved"]:
+                if r["solved"] and not r0["solved"] and confirmed(inp, t, lambda x, y: x["solved"] and not y["solved"]):
                     ctx.fail("raising-threshold-solved-a-row", case, {})
     ctx.sample({"thresholds": ths, "example_input": inputs[0]})
     pipe.eval_pipeline_cases(ctx, allb, "c13")
